@@ -527,7 +527,9 @@ def run_attr(ctx, case):
 # ---- generator ---------------------------------------------------------------------------------
 
 VENDORS = ['aeabi', 'riscv', 'gnu', 'ARM', 'vendor', '', 'a', 'aeabi', 'Vendoré', 'x' * 40]
-STRINGS = ['', 'ARM v7', '7-A', 'rv64i2p0_m2p0_a2p0', 'rv32imac', '2.09', 'cortex-a8', 'é中\U0001f600', 'A', 'z' * 70]
+STRINGS = ['', 'ARM v7', '7-A', 'rv64i2p0_m2p0_a2p0', 'rv32imac', '2.09', 'cortex-a8', 'é中\U0001f600', 'A', 'z' * 70,
+           # long values (RISC-V arch strings list every extension) with multi-byte characters across every plausible read boundary
+           'a' + 'é' * 200, 'rv64' + '_zé' * 100, 'b' * 63 + '中' + 'c' * 200, 'd' * 255 + 'é' + 'e' * 300, 'f' * 4095 + '\U0001f600' + 'g']
 
 
 def gen_uleb_value(ch):
